@@ -48,6 +48,10 @@ enum Ty {
     ArrNum,
     Null,
     Bool,
+    /// array[array[number]]
+    ArrArrNum,
+    /// array[string | array[number]]
+    ArrStrOrArrNum,
 }
 
 fn to_arg(tys: &[Ty]) -> ArgumentType {
@@ -61,6 +65,8 @@ fn to_arg(tys: &[Ty]) -> ArgumentType {
         Ty::ArrNum => ArgumentType::TypedArray(Box::new(ArgumentType::Number)),
         Ty::Null => ArgumentType::Null,
         Ty::Bool => ArgumentType::Bool,
+        Ty::ArrArrNum => ArgumentType::TypedArray(Box::new(ArgumentType::TypedArray(Box::new(ArgumentType::Number)))),
+        Ty::ArrStrOrArrNum => ArgumentType::TypedArray(Box::new(ArgumentType::Union(vec![ArgumentType::String, ArgumentType::TypedArray(Box::new(ArgumentType::Number))]))),
     };
     if tys.len() == 1 {
         one(&tys[0])
@@ -80,11 +86,13 @@ fn accepts(tys: &[Ty], v: &J) -> bool {
         Ty::ArrNum => matches!(v, J::Arr(a) if a.iter().all(|x| matches!(x, J::Num(_)))),
         Ty::Null => matches!(v, J::Null),
         Ty::Bool => matches!(v, J::Bool(_)),
+        Ty::ArrArrNum => matches!(v, J::Arr(a) if a.iter().all(|x| matches!(x, J::Arr(i) if i.iter().all(|y| matches!(y, J::Num(_)))))),
+        Ty::ArrStrOrArrNum => matches!(v, J::Arr(a) if a.iter().all(|x| matches!(x, J::Str(_)) || matches!(x, J::Arr(i) if i.iter().all(|y| matches!(y, J::Num(_)))))),
     })
 }
 
 fn gen_tys(src: &mut Src) -> Vec<Ty> {
-    let all = [Ty::Any, Ty::Number, Ty::Str, Ty::Array, Ty::Object, Ty::Expref, Ty::ArrNum, Ty::Null, Ty::Bool];
+    let all = [Ty::Any, Ty::Number, Ty::Str, Ty::Array, Ty::Object, Ty::Expref, Ty::ArrNum, Ty::Null, Ty::Bool, Ty::ArrArrNum, Ty::ArrStrOrArrNum, Ty::ArrNum, Ty::ArrArrNum];
     let n = if src.chance(60) { 2 } else { 1 };
     (0..n).map(|_| *src.pick(&all)).collect()
 }
@@ -193,7 +201,10 @@ fn history(src: &mut Src, st: &mut Stats, _env: &Env) -> CaseResult {
         for name in NAMES.iter().chain([NEVER].iter()).chain(NEVER_NEAR.iter()) {
             let nargs = src.below(4);
             let nn_builtin = matches!(model.get("not_null"), Some(Entry::Builtin));
-            let plain = ["n", "s", "xs", "o", "z", "`1`", "'lit'", "xs[*]", "objs[*].a", "&n", "&objs[0].a", "xs[0]", "`[1, 2]`", "&@"];
+            let plain = [
+                "n", "s", "xs", "o", "z", "`1`", "'lit'", "xs[*]", "objs[*].a", "&n", "&objs[0].a", "xs[0]", "`[1, 2]`", "&@", "`[[1, 2], [\"x\"]]`", "`[[1], [2, 3]]`", "`[[\"x\"], [1]]`",
+                "`[\"a\", [1]]`", "`[[1], \"a\", [\"b\"]]`", "`[[1], [2], [true]]`", "`[1, 2, \"x\"]`", "`[]`", "`[[]]`", "[xs, xs]", "[xs, [s]]",
+            ];
             let with_calls = ["n", "s", "xs", "not_null(s)", "not_null(z, n)", "not_null(not_null(xs))", "`1`", "&n", "not_null(z, z, o)", "xs[0]"];
             let arg_texts: Vec<&str> = (0..nargs).map(|_| if nn_builtin && src.chance(100) { *src.pick(&with_calls) } else { *src.pick(&plain) }).collect();
             let mut expr = format!("{}({})", name, arg_texts.join(", "));
